@@ -93,8 +93,7 @@ def validTicks (ts : List String) : Bool :=
   ts.all fun t => if t.startsWith "tick:" then (t.drop 5).toString.toNat?.isSome else true
 
 def mkCfg (s : St) : Cfg :=
-  { maxQ := s.maxQ, last := s.last,
-    ths := s.decls.toList.map fun d => Th.init d.1 (classify s.T s.statNs d.2) }
+  Cfg.start s.maxQ s.last (s.decls.toList.map fun d => (d.1, classify s.T s.statNs d.2))
 
 def knownOr (tainted : Option String) (why : String) : String :=
   match tainted with
